@@ -9,6 +9,7 @@ static Verdict run(const Case &c) {
     int ifi = w.add_if(h.ifcfg());
     Mac own = h.ownmac();
     Shadow sh;
+    OtherIf oif;
     MapperModel mm;
     bool contaminated = false;   // foreign Hello / other-service Discover / generation change seen before
     int last_gen[2] = {-1, -1};
@@ -17,6 +18,7 @@ static Verdict run(const Case &c) {
         const Op &op = c.ops[i];
         if (op.kind == K_ADVANCE) { vp_set_now_ms(vp_now_ms() + (uint64_t)op.arg(0)); continue; }
         if (op.kind == K_SETICON) { w.set_icon(op.blob); continue; }
+        if (op.kind == K_OTHERIF) { oif.step(w, h, op); continue; }
         if (op.kind == 16 /* platform changes the interface's hardware address */) { own = mac_from_u64(0x020000000000ULL | (uint64_t)(op.arg(0) & 0xFFFFFF) | 0x01000000ULL); memcpy(w.ctx(ifi)->mac, own.b, 6); h.own = mac_to_u64(own); continue; }
         Built b = build_frame(h, op, sh);
         if (!b.is_frame) continue;
@@ -80,7 +82,7 @@ int main(int argc, char **argv) {
               "non-trivial = a checked Discover preceded by a foreign Hello, a Discover of the other service or a generation change; "
               "distinct = digest of the whole case";
     HistWeights w;
-    w.discover = 10; w.hello = 4; w.reset = 3;
+    w.discover = 10; w.hello = 4; w.reset = 3; w.otherif = 1;
     auto gen = rc::gen::exec([=] {
         Case c = *hg::hist_case(w, 1, 40);
         if (*gx::chance(15) && !c.ops.empty()) {   // the platform changes the interface's address somewhere in the history
